@@ -465,59 +465,25 @@ func hashWrites(f *ssa.Function) (obj *ssa.Call, writes []*ssa.Call, sum *ssa.Ca
 func padded32(be *bigEnv, v ssa.Value) (string, bool) {
 	if phi, ok := v.(*ssa.Phi); ok && len(phi.Edges) == 2 {
 		var raw *ssa.Call
-		var app *ssa.Call
 		for _, e := range phi.Edges {
 			if call, name, _, _, ok := bigMethod(e); ok && name == "Bytes" {
 				raw = call
-			} else if call, ok := e.(*ssa.Call); ok {
-				if bi, ok := call.Call.Value.(*ssa.Builtin); ok && bi.Name() == "append" {
-					app = call
-				}
 			}
 		}
-		if raw == nil || app == nil {
-			return "", false
-		}
-		// append(zero[:32-len(raw)], raw...)
-		if app.Call.Args[1] != ssa.Value(raw) {
-			return "", false
-		}
-		sl, ok := app.Call.Args[0].(*ssa.Slice)
-		if !ok || sl.High == nil {
-			return "", false
-		}
-		hi, ok := sl.High.(*ssa.BinOp)
-		if !ok || hi.Op != token.SUB {
-			return "", false
-		}
-		if k, ok := constInt(hi.X); !ok || k != 32 {
-			return "", false
-		}
-		if !isLenOf(hi.Y, func(x ssa.Value) bool { return x == ssa.Value(raw) }) {
-			return "", false
-		}
-		// the zero source must be all zeros: call to a function returning a 32-byte zero literal or make
-		if !zeroSource(sl.X) {
-			return "", false
-		}
-		// guard: the padded edge is taken when len(raw) < 32
-		blk := phi.Block()
-		good := false
-		for d := blk.Idom(); d != nil; d = d.Idom() {
-			if ifi, ok := lastIf(d); ok {
-				if bo, ok := ifi.Cond.(*ssa.BinOp); ok && bo.Op == token.LSS && isLenOf(bo.X, func(x ssa.Value) bool { return x == ssa.Value(raw) }) {
-					if k, ok := constInt(bo.Y); ok && k == 32 {
-						good = true
-					}
-				}
-				break
-			}
-		}
-		if !good {
+		if raw == nil || !padIdiom(phi, raw) {
 			return "", false
 		}
 		_, _, recv, _, _ := bigMethod(raw)
 		return be.valueAt(recv, raw).String(), true
+	}
+	// helper call pad(X.Bytes()) whose body is the idiom over its parameter
+	if call, ok := v.(*ssa.Call); ok {
+		sc := call.Call.StaticCallee()
+		if sc != nil && inRepo(sc) && len(sc.Params) == 1 && len(call.Call.Args) == 1 && isPadHelper(sc) {
+			if raw, name, recv, _, ok := bigMethod(call.Call.Args[0]); ok && name == "Bytes" {
+				return be.valueAt(recv, raw).String(), true
+			}
+		}
 	}
 	if call, name, recv, args, ok := bigMethod(v); ok && name == "FillBytes" {
 		if ms, ok := args[0].(*ssa.MakeSlice); ok {
@@ -527,6 +493,76 @@ func padded32(be *bigEnv, v ssa.Value) (string, bool) {
 		}
 	}
 	return "", false
+}
+
+var padHelperCache = map[*ssa.Function]bool{}
+
+func isPadHelper(f *ssa.Function) bool {
+	if v, ok := padHelperCache[f]; ok {
+		return v
+	}
+	res := false
+	for _, b := range f.Blocks {
+		if ret, ok := b.Instrs[len(b.Instrs)-1].(*ssa.Return); ok && len(ret.Results) == 1 {
+			phi, ok := ret.Results[0].(*ssa.Phi)
+			res = ok && padIdiom(phi, f.Params[0])
+		}
+	}
+	padHelperCache[f] = res
+	return res
+}
+
+// padIdiom: phi = [raw, append(zeros[:32-len(raw)], raw...)] chosen by len(raw) < 32
+func padIdiom(phi *ssa.Phi, raw ssa.Value) bool {
+	if len(phi.Edges) != 2 {
+		return false
+	}
+	var app *ssa.Call
+	hasRaw := false
+	for _, e := range phi.Edges {
+		if e == raw {
+			hasRaw = true
+		} else if call, ok := e.(*ssa.Call); ok {
+			if bi, ok := call.Call.Value.(*ssa.Builtin); ok && bi.Name() == "append" {
+				app = call
+			}
+		}
+	}
+	if !hasRaw || app == nil || app.Call.Args[1] != raw {
+		return false
+	}
+	sl, ok := app.Call.Args[0].(*ssa.Slice)
+	if !ok || sl.High == nil || sl.Low != nil {
+		return false
+	}
+	hi, ok := sl.High.(*ssa.BinOp)
+	if !ok || hi.Op != token.SUB {
+		return false
+	}
+	if k, ok := constInt(hi.X); !ok || k != 32 {
+		return false
+	}
+	isRaw := func(x ssa.Value) bool { return x == raw }
+	if !isLenOf(hi.Y, isRaw) || !zeroSource(sl.X) {
+		return false
+	}
+	// the padded edge is taken exactly when len(raw) < 32
+	blk := phi.Block()
+	for d := blk.Idom(); d != nil; d = d.Idom() {
+		ifi, ok := lastIf(d)
+		if !ok {
+			continue
+		}
+		bo, ok := ifi.Cond.(*ssa.BinOp)
+		if ok && bo.Op == token.LSS && isLenOf(bo.X, isRaw) {
+			if k, ok := constInt(bo.Y); ok && k == 32 {
+				// the append must be on the true side
+				return d.Succs[0].Dominates(app.Block()) || d.Succs[0] == app.Block()
+			}
+		}
+		return false
+	}
+	return false
 }
 
 func zeroSource(v ssa.Value) bool {
